@@ -58,7 +58,7 @@ func runWalk(c *Ctx) {
 	// ---------------- WALK: classify every store to <vertex>.Value outside composite literals
 	n := 0
 	type snap struct {
-		st   *ssa.Store // callState.Value = X.Value
+		st   ssa.Instruction // callState.Value = X.Value (or the call of the setter that does it)
 		base ssa.Value
 	}
 	var snaps []snap
@@ -74,14 +74,18 @@ func runWalk(c *Ctx) {
 				return
 			}
 			if fr.Owner == "callState" && inRes(f) {
-				if src, ok := core.AsFieldLoad(st.Val); ok && src.Field == "Value" && kinds.Label(src.Owner) {
-					snaps = append(snaps, snap{st, src.Base})
-					n++
-					c.R.Add("WALK", fmt.Sprintf("resolver|last-seen-value from %s#%d", src.Owner, n), "resolver", p.InstrPos(st), src.Owner == kinds.Value || src.Owner == kinds.Out,
-						"the walk's last-seen value is taken from the named-value or typed-output vertex just visited", "from "+src.Owner)
-				} else {
-					n++
-					c.R.Add("WALK", fmt.Sprintf("resolver|last-seen-value#%d", n), "resolver", p.InstrPos(st), false, "the walk's last-seen value is taken from the vertex just visited", "assigned "+core.Path(st.Val))
+				// a setter of the state (`state.setLast(v.Value)`) is judged at each of its call sites
+				for _, ex := range p.Expand(st) {
+					val := ex.Sub(st.Val)
+					if src, ok := core.AsFieldLoad(val); ok && src.Field == "Value" && kinds.Label(src.Owner) {
+						snaps = append(snaps, snap{ex.At, src.Base})
+						n++
+						c.R.Add("WALK", fmt.Sprintf("resolver|last-seen-value from %s#%d", src.Owner, n), "resolver", p.InstrPos(ex.At), src.Owner == kinds.Value || src.Owner == kinds.Out,
+							"the walk's last-seen value is taken from the named-value or typed-output vertex just visited", "from "+src.Owner)
+					} else {
+						n++
+						c.R.Add("WALK", fmt.Sprintf("resolver|last-seen-value#%d", n), "resolver", p.InstrPos(ex.At), false, "the walk's last-seen value is taken from the vertex just visited", "assigned "+core.Path(val))
+					}
 				}
 				return
 			}
@@ -212,7 +216,7 @@ func runWalk(c *Ctx) {
 				}
 			}
 		})
-		nb, nk := 0, 0
+		nb, nk, ne := 0, 0, 0
 		p.RegionInstrs(res, func(in ssa.Instruction) {
 			mu, ok := in.(*ssa.MapUpdate)
 			if !ok || core.TypeStr(mu.Map.Type()) != "map[interface{}]reflect.Value" {
@@ -220,6 +224,66 @@ func runWalk(c *Ctx) {
 			}
 			fr, ok := core.AsFieldLoad(mu.Value)
 			if !ok || fr.Field != "Value" || !kinds.Label(fr.Owner) {
+				// any other entry (the value a walked path ended in): every value that can arrive here was read from
+				// the Value field of a vertex — never from a side table of the call state, a cache or a computation
+				bad := ""
+				var judgeVal func(v ssa.Value, d int)
+				judgeVal = func(v ssa.Value, d int) {
+					for _, sv := range p.ISources(v) {
+						if sf, ok := core.AsFieldLoad(sv); ok && sf.Field == "Value" && kinds.Label(sf.Owner) {
+							continue
+						}
+						if al, ok := sv.(*ssa.Alloc); ok && core.TypeStr(al.Type()) == "*reflect.Value" {
+							continue // the zero value a variable starts with
+						}
+						if k, ok := sv.(*ssa.Const); ok && k.Value == nil {
+							continue
+						}
+						// copied from another argument map (its entries are judged where they are written)
+						if ex, ok := sv.(*ssa.Extract); ok && ex.Index == 2 {
+							if nx, ok := ex.Tuple.(*ssa.Next); ok {
+								if rg, ok := nx.Iter.(*ssa.Range); ok && core.TypeStr(rg.X.Type()) == "map[interface{}]reflect.Value" {
+									continue
+								}
+							}
+						}
+						// an element of a local list of final values: whatever was stored into that list
+						if ld, ok := sv.(*ssa.UnOp); ok && ld.Op == token.MUL && d < 3 {
+							if ia, ok := ld.X.(*ssa.IndexAddr); ok {
+								resolved, foreign := false, false
+								for _, lst := range p.ISources(ia.X) {
+									if k, ok := lst.(*ssa.Const); ok && k.Value == nil {
+										continue // a nil list has no elements
+									}
+									mk, ok := lst.(*ssa.MakeSlice)
+									if !ok {
+										foreign = true
+										break
+									}
+									resolved = true
+									for _, ref := range *mk.Referrers() {
+										if ia2, ok := ref.(*ssa.IndexAddr); ok {
+											for _, r2 := range *ia2.Referrers() {
+												if st, ok := r2.(*ssa.Store); ok && st.Addr == ssa.Value(ia2) {
+													judgeVal(st.Val, d+1)
+												}
+											}
+										}
+									}
+								}
+								if resolved && !foreign {
+									continue
+								}
+							}
+						}
+						bad = core.Path(sv)
+					}
+				}
+				judgeVal(mu.Value, 0)
+				ne++
+				c.R.Add("BIND", fmt.Sprintf("resolver|entry-is-a-vertex-value#%d", ne), "resolver", p.InstrPos(mu), bad == "",
+					"every argument-map entry is the Value of a vertex (the requirement's own, or the one a walked path ended in) — never a value looked up in a side table of the call state, a cache or a computed value",
+					ternary(bad == "", "all sources are vertex values", "may hold "+bad))
 				return
 			}
 			ta := assertOf(fr.Base)
